@@ -10,7 +10,6 @@ import (
 	"strings"
 	"time"
 
-	"github.com/zalf-rpm/Hermes2Go/hermes"
 	"verif/mc"
 	"verif/proj"
 )
@@ -190,11 +189,18 @@ func c03Run(raw json.RawMessage, c *mc.Ctx) {
 		})
 	case "seq":
 		w := buildBatchWorld(root, 40)
-		session := hermes.NewHermesSession()
-		defer session.Close()
+		// the sequence runs in one session of a fresh process (what the worker process executed before must not matter)
+		var seqArgs [][]string
 		for i, n := range sp.Batch {
-			args := append(strings.Fields(w.Lines[n]), "resultfolder="+filepath.Join(root, "out", fmt.Sprintf("seq%d", i)))
-			got := proj.RunSession(session, root, args, fmt.Sprintf("[%d]", i), nil)
+			seqArgs = append(seqArgs, append(strings.Fields(w.Lines[n]), "resultfolder="+filepath.Join(root, "out", fmt.Sprintf("seq%d", i))))
+		}
+		gots, err := proj.RunSeqFresh(root, seqArgs)
+		if err != nil || len(gots) != len(sp.Batch) {
+			c.Violate("run-failed seq", fmt.Sprintf("sequence %v: the process running the sequence died: %v", sp.Batch, err), nil)
+			return
+		}
+		for i, n := range sp.Batch {
+			got := gots[i]
 			// reference: the line as the only run of a fresh process (state kept at package level starts empty as well)
 			ref := proj.RunFresh(root, append(strings.Fields(w.Lines[n]), "resultfolder="+filepath.Join(root, "out", "ref")))
 			c.Trace(2)
